@@ -12,19 +12,23 @@
    Numbers are Z; LegacyDec values are Z scaled by 10^18 (Base/Dec.v).  None = the transaction fails (error or panic):
    nothing is written.
 
-   The code as found has four defects in this area; each is a boolean of [variant] (false = as found, true = repaired):
+   The code as found has five defects in this area; each is a boolean of [variant] (false = as found, true = repaired):
      fix13  deductUnbondingDelegation removes entries while ranging over them (F13)
      fix34  MoveTokensFromValidator knows no pool for an Unbonded validator (F34)
      fix38  only the first redelegation destination is searched and what it cannot cover is dropped silently (F38)
-     fix39  shares are computed against power*10^6 instead of the stake recorded for the report; the last share can be negative (F39/F40) *)
+     fix39  shares are computed against power*10^6 instead of the stake recorded for the report; the last share can be negative (F39/F40)
+     fix15  SharesFromTokens rounds down: with an exchange rate other than one the shares unbonded for a slash are worth a unit
+            less than the amount recorded (F15); repaired: the smallest number of shares worth the whole amount
+   [current] is the code in /repo now (F13, F34, F38 and F15 repaired there, F39 open). *)
 From Coq Require Import ZArith List Bool String.
 From Verif Require Import Base.Dec Base.Harness.
 Import ListNotations.
 Open Scope Z_scope.
 
-Record variant := Var { fix13 : bool; fix34 : bool; fix38 : bool; fix39 : bool }.
-Definition as_found : variant := Var false false false false.
-Definition repaired : variant := Var true true true true.
+Record variant := Var { fix13 : bool; fix34 : bool; fix38 : bool; fix39 : bool; fix15 : bool }.
+Definition as_found : variant := Var false false false false false.
+Definition repaired : variant := Var true true true true true.
+Definition current : variant := Var true true true false true.
 
 (* ---- the staking slice ------------------------------------------------------------------------ *)
 Record val := Val { v_id : Z; v_tokens : Z; v_shares : Z; v_status : Z }.   (* status 1 unbonded 2 unbonding 3 bonded *)
@@ -114,18 +118,25 @@ Definition deduct_from_delegation (vr : variant) (st : stk) (del vl dt : Z) : op
           | None => None
           | Some cur =>
               let pick := if dt <=? cur
-                          then match shares_from_tokens v (round_int dt) with Some s => Some (s, 0) | None => None end
+                          then match shares_from_tokens v (round_int dt) with
+                               | Some s =>
+                                   (* fix15: one more smallest share step when the division was not exact *)
+                                   if fix15 vr && (s * v_tokens v <? v_shares v * round_int dt) && (s <? d_shares d)
+                                   then Some (s + 1, 0) else Some (s, 0)
+                               | None => None
+                               end
                           else Some (d_shares d, dt - cur) in
               match pick with
               | None => None
               | Some (sh, rem) =>
-                  if sh =? 0 then Some (st, rem) else
+                  (* fix15: what is still missing is measured against the whole units that left the delegation *)
+                  if sh =? 0 then Some (st, if fix15 vr then Z.max 0 dt else rem) else
                   match unbond st del vl sh with
                   | None => None
                   | Some (st1, removed) =>
                       match move_tokens vr st1 (v_status v) removed with
                       | None => None
-                      | Some st2 => Some (st2, rem)
+                      | Some st2 => Some (st2, if fix15 vr then Z.max 0 (dt - of_int removed) else rem)
                       end
                   end
               end
@@ -501,11 +512,16 @@ Definition world_eqb (a b : world) :=
   && list_eqb disp_eqb (w_disps a) (w_disps b) && list_eqb rcd_eqb (w_rcds a) (w_rcds b)
   && list_eqb pair_eqb (w_bond a) (w_bond b) && list_eqb pair_eqb (w_liq a) (w_liq b) && (w_now a =? w_now b).
 
-(* as found and repaired first; evaluation stops at the first assignment that fits *)
+(* the implementation has to behave as the code in /repo now ([current]) or as that code with further defects of the
+   list repaired (so that a later repair of an open finding does not break the correspondence, while taking a repair
+   out does); [current] first: evaluation stops at the first assignment that fits *)
+Definition at_least (a b : variant) : bool :=
+  implb (fix13 a) (fix13 b) && implb (fix34 a) (fix34 b) && implb (fix38 a) (fix38 b) && implb (fix39 a) (fix39 b) && implb (fix15 a) (fix15 b).
+Definition every_variant : list variant :=
+  flat_map (fun a => flat_map (fun b => flat_map (fun c => flat_map (fun d => map (fun e => Var a b c d e) [false; true]) [false; true]) [false; true]) [false; true]) [false; true].
+Definition variant_eqb (a b : variant) : bool := at_least a b && at_least b a.
 Definition all_variants : list variant :=
-  as_found :: repaired ::
-  filter (fun v => negb ((negb (fix13 v) && negb (fix34 v) && negb (fix38 v) && negb (fix39 v)) || (fix13 v && fix34 v && fix38 v && fix39 v)))
-    (flat_map (fun a => flat_map (fun b => flat_map (fun c => map (fun d => Var a b c d) [false; true]) [false; true]) [false; true]) [false; true]).
+  current :: filter (fun v => at_least current v && negb (variant_eqb v current)) every_variant.
 Fixpoint lazy_exists {A} (f : A -> bool) (l : list A) : bool :=
   match l with [] => false | a :: t => if f a then true else lazy_exists f t end.
 
@@ -704,10 +720,11 @@ Definition c11_check (c : c11_case) : issues :=
   end.
 
 (* ---- signature predicates of the known findings ------------------------------------------------------ *)
-Definition flip13 := Var false true true true.
-Definition flip34 := Var true false true true.
-Definition flip38 := Var true true false true.
-Definition flip39 := Var true true true false.
+Definition flip13 := Var false true true true true.
+Definition flip34 := Var true false true true true.
+Definition flip38 := Var true true false true true.
+Definition flip39 := Var true true true false true.
+Definition flip15 := Var true true true true false.
 
 Definition escrow_out_eqb (a b : option (stk * list origin)) : bool :=
   match a, b with
@@ -731,12 +748,12 @@ Definition escrow_classes (deep : bool) (reds : list red) (st0 : stk) (origins :
            let found := escrow as_found reds st0 origins power amt in
            let sens v v' := negb (escrow_out_eqb (escrow v reds st0 origins power amt) full)
                             || negb (escrow_out_eqb (escrow v' reds st0 origins power amt) found) in
-           (if sens flip13 (Var true false false false) then ["F13"] else [])
-           ++ (if sens flip34 (Var false true false false) then ["F34"] else [])
-           ++ (if sens flip38 (Var false false true false) then ["F38"] else [])
-           ++ (if sens flip39 (Var false false false true) then ["F39"] else [])
-         else []))
-  ++ (if forallb rate_one (s_vals st0) then [] else ["F15"]).
+           (if sens flip13 (Var true false false false false) then ["F13"] else [])
+           ++ (if sens flip34 (Var false true false false false) then ["F34"] else [])
+           ++ (if sens flip38 (Var false false true false false) then ["F38"] else [])
+           ++ (if sens flip39 (Var false false false true false) then ["F39"] else [])
+           ++ (if sens flip15 (Var false false false false true) then ["F15"] else [])
+         else [])).
 
 (* the fee the operation paid, read off the implementation's dispute records *)
 Definition dp_paid (o : op) (w w' : world) : Z :=
